@@ -67,6 +67,7 @@ MUTANTS: Dict[str, List[M]] = {
         ("enum serialised on the parse path", "_typehints.py", "        if serialize:\n            if isinstance(val, typehint):\n                val = val.name", "        if not serialize:\n            if isinstance(val, typehint):\n                val = val.name", "C01.e"),
     ],
     "C02": [
+        ("enum of an Optional taken by position again (F63)", "_typehints.py", "        enum = get_optional_arg(typehint, Enum)\n", "        enum = typehint.__args__[0]\n", "C02.h"),
         ("root type without an arm", "_typehints.py", "    abc.Sequence,\n    abc.MutableSequence,\n}\nmapping_origin_types", "    abc.Sequence,\n}\nmapping_origin_types", "C02.e"),
         ("Union returns vals[-1] again", "_typehints.py", "val = next(v for v in reversed(vals) if not isinstance(v, Exception))", "val = vals[-1]", "C02.a"),
         ("Union returns vals[0]", "_typehints.py", "val = next(v for v in reversed(vals) if not isinstance(v, Exception))", "val = vals[0]", "C02.a"),
